@@ -13,6 +13,8 @@ struct Run {
     int grouping[3];   // bitmask: bit i set = packet boundary after frame i (i < n-1)
     int uri[3];        // 0 absolute plain, 1 file:// + absolute, 2 short relative name (< 7 chars), 3 (cycles > 0) no set: restart with the previous settings
     std::vector<int> plan;
+    int reject_after = -1; // >= 0 (cycles >= 2): after this many packets of cycle 0 the client re-configures the RUNNING device with a path that
+                           // cannot be written; the device rejects it, the first acquisition ends there, the next cycle configures a good path again
     int intruder = -1; // >= 0: after this many packets of cycle 0 a SECOND raw device is pointed at the same file (set; start; stop; close)
 };
 static std::string run_str(const Run& r)
@@ -23,6 +25,7 @@ static std::string run_str(const Run& r)
     s += "|uri:"; for (int c = 0; c < r.cycles; ++c) { snprintf(b, sizeof b, "%s%d", c ? "," : "", r.uri[c]); s += b; }
     s += "|plan:"; for (size_t i = 0; i < r.plan.size(); ++i) { snprintf(b, sizeof b, "%s%d", i ? "," : "", r.plan[i]); s += b; }
     if (r.intruder >= 0) s += "|intruder:" + std::to_string(r.intruder);
+    if (r.reject_after >= 0) s += "|reject:" + std::to_string(r.reject_after);
     return s;
 }
 static bool parse_run(const std::string& s, Run& r)
@@ -36,10 +39,11 @@ static bool parse_run(const std::string& s, Run& r)
     for (int c = 0; c < r.cycles; ++c) { r.nframes[c] = c < (int)f.size() ? f[c] : 1; r.grouping[c] = c < (int)g.size() ? g[c] : 0; r.uri[c] = c < (int)u.size() ? u[c] : 0; }
     r.plan = ints(field("plan"));
     r.intruder = field("intruder").empty() ? -1 : atoi(field("intruder").c_str());
+    r.reject_after = field("reject").empty() ? -1 : atoi(field("reject").c_str());
     return true;
 }
 
-static unsigned long long g_intrusions;
+static unsigned long long g_intrusions, g_rejections;
 struct Result { bool ok = true; std::string clause, detail; int writes = 0; bool write_failed = false; };
 
 static const uint32_t WIDTHS[3] = { 1, 9, 17 }; // frames of 104, 112 and 120 bytes
@@ -95,7 +99,20 @@ static Result execute(const Run& r, bool verbose)
             ++g_intrusions;
         };
         if (c == 0 && r.intruder == 0) intrude();
-        for (int i = 0; i < r.nframes[c]; ++i) {
+        bool rejected = false;
+        auto reject_live_set = [&]() {
+            std::string bad = g_scratch + "/no-such-directory/x.raw";
+            struct StorageProperties pb; memset(&pb, 0, sizeof pb);
+            struct PixelScale psb = { 1, 1 };
+            storage_properties_init(&pb, 0, bad.c_str(), bad.size() + 1, nullptr, 0, psb, 0);
+            enum DeviceStatusCode rb;
+            DEV(rb = storage_set(dev, &pb));
+            storage_properties_destroy(&pb);
+            rejected = true; ++g_rejections;
+            (void)rb;
+        };
+        if (c == 0 && r.reject_after == 0) reject_live_set();
+        for (int i = 0; i < r.nframes[c] && !rejected; ++i) {
             FrameSpec fs = { WIDTHS[(i + c) % 3], 1, SampleType_u8, (uint64_t)i };
             std::vector<uint8_t> f = make_frame(fs, c);
             packet.insert(packet.end(), f.begin(), f.end());
@@ -111,7 +128,9 @@ static Result execute(const Run& r, bool verbose)
                 expect.insert(expect.end(), packet.begin(), packet.end());
                 packet.clear();
                 foreign_shuffle();
-                if (c == 0 && r.intruder == ++npackets) intrude();
+                ++npackets;
+                if (c == 0 && r.intruder == npackets) intrude();
+                if (c == 0 && r.reject_after == npackets) reject_live_set();
             }
         }
         DEV(storage_stop(dev));
@@ -196,6 +215,8 @@ int main(int argc, char** argv)
             note(b, r0);
             if (samples.size() < 8 && histories % 97 == 3) samples.push_back(run_str(b));
             if (!r0.ok) continue; // deviations on a broken base add nothing
+            if (cycles == 2 && b.uri[1] != 3 && b.uri[0] == 0 && b.grouping[1] == 0)
+                for (int k = 0; k <= b.nframes[0]; ++k) { Run rr = b; rr.reject_after = k; Result res = execute(rr, false); ++runs; ++judged; note(rr, res); }
             if (cycles == 1 && b.uri[0] < 2)
                 for (int k = 0; k <= b.nframes[0]; ++k) { Run ri = b; ri.intruder = k; Result res = execute(ri, false); ++runs; ++judged; note(ri, res); }
             int W = r0.writes + 2 * dev; // short writes add calls
@@ -237,8 +258,8 @@ int main(int argc, char** argv)
     h_rmtree(g_scratch);
     double wall = std::chrono::duration<double>(std::chrono::steady_clock::now() - t0).count();
     FILE* f = out.empty() ? stdout : fopen(out.c_str(), "w");
-    fprintf(f, "{\"runs_with_a_second_device_on_the_same_file\":%llu,\"max_cycles\":%d,\"max_short_write_deviations\":%d,\"histories\":%llu,\"runs\":%llu,\"runs_with_short_or_zero_writes\":%llu,\"runs_judged\":%llu,\"multi_cycle_histories\":%llu,\"exhaustive\":true,\"wall_s\":%.3f,\"samples\":[",
-            g_intrusions, max_cycles, dev, histories, runs, short_runs, judged, multi_cycle, wall);
+    fprintf(f, "{\"runs_with_a_rejected_live_set\":%llu,\"runs_with_a_second_device_on_the_same_file\":%llu,\"max_cycles\":%d,\"max_short_write_deviations\":%d,\"histories\":%llu,\"runs\":%llu,\"runs_with_short_or_zero_writes\":%llu,\"runs_judged\":%llu,\"multi_cycle_histories\":%llu,\"exhaustive\":true,\"wall_s\":%.3f,\"samples\":[",
+            g_rejections, g_intrusions, max_cycles, dev, histories, runs, short_runs, judged, multi_cycle, wall);
     for (size_t i = 0; i < samples.size(); ++i) fprintf(f, "%s\"%s\"", i ? "," : "", json_esc(samples[i]).c_str());
     fprintf(f, "],\"violations\":[");
     bool first = true;
